@@ -24,6 +24,72 @@ CLAIMED["C16"] = dict(
     text="Machine-checked: [prefix, PrefixEndBytes(prefix)) is exactly the set of keys with that prefix for every non-empty prefix incl. all-0xFF; ConsumeGas adds exactly, raises out-of-gas exactly when the running total crosses the limit and reports (never wraps) an overflow; gas/trace stores return the wrapped store's result and log one line per traced op. The full wrapper models (per-iterator-step gas, trace order, prefix iterators) are compared with the code on random stackings every run, result + gas total + trace after every op.",
     note="Trusted: Coq kernel, extraction, OCaml/Go drivers. tracekv does not trace Has (upstream behaviour) - modelled as coded. uint64 per-byte cost multiplication wraps only for values > 2^62 bytes (modelled as mod 2^64).",
     design_ref="§6 C16")
+CLAIMED["C02"] = dict(
+    engine="app",
+    technique="Coq proof (invariant supply = sum of balances over all histories of the L1 model, by induction over ops) + step-wise differential correspondence + independent oracle on the implementation's raw store dumps",
+    text='bank_ok (accounts form a map, their sum equals the recorded supply, no balance negative) is proved preserved by EVERY function of the application model (bank primitives, stake/unstake/slash/force-unstake/jail, rewards, awards, burns, fees, DAO, BeginBlock/EndBlock) and hence in every reachable state of every history; mint/burn move the supply by exactly their amount, sends never do.',
+    note="Trusted: Coq kernel, extraction, OCaml/Go drivers incl. the projection of raw store bytes to the compared state and the emulated Tendermint set; ed25519/amino/IAVL as used by the real code. The L1 model is a hand transcription of x/auth, x/pos, x/gov and the baseapp block cycle (single denomination); Go panics outside runTx are [None] (block aborts).",
+    design_ref="§6 C02")
+CLAIMED["C03"] = dict(
+    engine="app",
+    technique='Coq proof over the ideal-signature abstraction (acceptance implies key=signer, valid signature, fee, no replay) + differential correspondence with real ed25519 transactions + oracle',
+    text="ante accept => the verifying key is the declared signer's, it signed exactly the current sign doc, the tx is not in the index, fee >= required and the fee is moved from the signer; forged / mutated / replayed txs are rejected.",
+    note="Trusted: Coq kernel, extraction, OCaml/Go drivers incl. the projection of raw store bytes to the compared state and the emulated Tendermint set; ed25519/amino/IAVL as used by the real code. The L1 model is a hand transcription of x/auth, x/pos, x/gov and the baseapp block cycle (single denomination); Go panics outside runTx are [None] (block aborts).",
+    design_ref="§6 C03")
+CLAIMED["C04"] = dict(
+    engine="app",
+    technique='Coq proof of the exact step lemmas (stake moves exactly the amount; payouts/burns conserve) + history-level oracle pool = sum(stake) on the implementation + correspondence',
+    text='Stake moves exactly msg.Value account->pool->record, proved; the history-level invariant pool = sum of staked+unstaking stake is checked after every op on the implementation and against the model (its Coq proof is partial, see Props/C04.v).',
+    note="Trusted: Coq kernel, extraction, OCaml/Go drivers incl. the projection of raw store bytes to the compared state and the emulated Tendermint set; ed25519/amino/IAVL as used by the real code. The L1 model is a hand transcription of x/auth, x/pos, x/gov and the baseapp block cycle (single denomination); Go panics outside runTx are [None] (block aborts).",
+    design_ref="§6 C04")
+CLAIMED["C05"] = dict(
+    engine="app",
+    technique='Coq proof (byte order of power-rank keys = (power, inverted address); injectivity) + oracle comparing the emulated Tendermint set with top-N after every EndBlock + correspondence',
+    text="Proved: reverse iteration of the power index is power-descending/address-ascending and keys are injective. Checked on the implementation: every update batch is applicable and yields exactly the top-MaxValidators staked unjailed set; updates equal the model's.",
+    note="Trusted: Coq kernel, extraction, OCaml/Go drivers incl. the projection of raw store bytes to the compared state and the emulated Tendermint set; ed25519/amino/IAVL as used by the real code. The L1 model is a hand transcription of x/auth, x/pos, x/gov and the baseapp block cycle (single denomination); Go panics outside runTx are [None] (block aborts).",
+    design_ref="§6 C05")
+CLAIMED["C06"] = dict(
+    engine="app",
+    technique='Coq proof (index membership rules, maturity never early via big-endian time-key order) + transition/queue/index oracle on the implementation + correspondence',
+    text='Proved: jailed or non-staked validators are never indexed, jailing removes the entry, only queue slots due at the block time are processed. Checked after every op: index exactness, queue membership, legal transitions, exact and timely payout.',
+    note="Trusted: Coq kernel, extraction, OCaml/Go drivers incl. the projection of raw store bytes to the compared state and the emulated Tendermint set; ed25519/amino/IAVL as used by the real code. The L1 model is a hand transcription of x/auth, x/pos, x/gov and the baseapp block cycle (single denomination); Go panics outside runTx are [None] (block aborts).",
+    design_ref="§6 C06")
+CLAIMED["C07"] = dict(
+    engine="app",
+    technique='Coq proof (slash amount = trunc(power*10^6*fraction) exactly; slashing conserves) + oracle on stake/pool/supply deltas at BeginBlock + correspondence',
+    text='Proved: the Dec pipeline in slash() computes exactly trunc(p*10^6*f) and every slash/force-unstake/double-sign path keeps supply = sum of balances. Checked: burn = stake removed = pool delta = supply delta, force-unstake below the minimum.',
+    note="Trusted: Coq kernel, extraction, OCaml/Go drivers incl. the projection of raw store bytes to the compared state and the emulated Tendermint set; ed25519/amino/IAVL as used by the real code. The L1 model is a hand transcription of x/auth, x/pos, x/gov and the baseapp block cycle (single denomination); Go panics outside runTx are [None] (block aborts).",
+    design_ref="§6 C07")
+CLAIMED["C08"] = dict(
+    engine="app",
+    technique='Coq proof (threshold = half-even rounding) + sliding-window oracle recomputed from the vote stream on the implementation + correspondence of counter/bit array/offset',
+    text='Proved: MinSignedPerWindow is the half-even rounding of fraction*window. Checked for every vote: counter = misses in the last W votes = stored bits, jailed at exactly the first crossing after start+W, window cleared.',
+    note="Trusted: Coq kernel, extraction, OCaml/Go drivers incl. the projection of raw store bytes to the compared state and the emulated Tendermint set; ed25519/amino/IAVL as used by the real code. The L1 model is a hand transcription of x/auth, x/pos, x/gov and the baseapp block cycle (single denomination); Go panics outside runTx are [None] (block aborts).",
+    design_ref="§6 C08")
+CLAIMED["C09"] = dict(
+    engine="app",
+    technique='Coq proof (unjail preconditions, jail removes index entry, tombstone permanent) + oracle + correspondence',
+    text='Proved: unjail succeeds only if jailed, stake >= minimum, not tombstoned, time >= jailed-until, and re-indexes a staked validator under its remaining stake; jailing removes the index entry; double-sign tombstones and a tombstoned validator never unjails.',
+    note="Trusted: Coq kernel, extraction, OCaml/Go drivers incl. the projection of raw store bytes to the compared state and the emulated Tendermint set; ed25519/amino/IAVL as used by the real code. The L1 model is a hand transcription of x/auth, x/pos, x/gov and the baseapp block cycle (single denomination); Go panics outside runTx are [None] (block aborts).",
+    design_ref="§6 C09")
+CLAIMED["C10"] = dict(
+    engine="app",
+    technique='Coq proof (award queue emptied, one award mints exactly its amount, rewards conserve) + balance oracle at every BeginBlock + correspondence',
+    text='Proved: the award queue is empty after BeginBlock and an award mints exactly its amount. Checked at every BeginBlock: collector -> proposer (or pos account) in full, every award paid once.',
+    note="Trusted: Coq kernel, extraction, OCaml/Go drivers incl. the projection of raw store bytes to the compared state and the emulated Tendermint set; ed25519/amino/IAVL as used by the real code. The L1 model is a hand transcription of x/auth, x/pos, x/gov and the baseapp block cycle (single denomination); Go panics outside runTx are [None] (block aborts).",
+    design_ref="§6 C10")
+CLAIMED["C11"] = dict(
+    engine="app",
+    technique='Coq proof (rejected => state equal; failing handler wrote nothing, only the fee moved) + oracle comparing all store sections before/after rejected txs + correspondence',
+    text="Proved on the model transcribed in source order of checks and writes: a rejected tx returns the identical state; a handler error leaves exactly ante's state (fee paid). Checked on the implementation for every rejected tx of every history.",
+    note="Trusted: Coq kernel, extraction, OCaml/Go drivers incl. the projection of raw store bytes to the compared state and the emulated Tendermint set; ed25519/amino/IAVL as used by the real code. The L1 model is a hand transcription of x/auth, x/pos, x/gov and the baseapp block cycle (single denomination); Go panics outside runTx are [None] (block aborts).",
+    design_ref="§6 C11")
+CLAIMED["C17"] = dict(
+    engine="app",
+    technique='Coq proof (parameter change implies ACL owner, changes that parameter alone; DAO moves need the DAO owner, exact amount within balance) + oracle over the raw parameter store + correspondence',
+    text='Proved on the model; the oracle diffs every parameter of every subspace before/after each op on the implementation.',
+    note="Trusted: Coq kernel, extraction, OCaml/Go drivers incl. the projection of raw store bytes to the compared state and the emulated Tendermint set; ed25519/amino/IAVL as used by the real code. The L1 model is a hand transcription of x/auth, x/pos, x/gov and the baseapp block cycle (single denomination); Go panics outside runTx are [None] (block aborts).",
+    design_ref="§6 C17")
 REASON_NOT_YET = "check not built yet in this round (design in DESIGN.md §6); will be claimed once its model, theorems and correspondence engine exist"
 
 def main():
@@ -56,6 +122,8 @@ def main():
         "engines": [
             {"name": "num", "path": "harness/cmd/num", "serves_properties": ["C18", "C20"],
              "kind_free_text": "differential run of types.Int/Uint/Dec/Coins against the extracted Coq model and exact specs"},
+            {"name": "app", "path": "harness/cmd/app", "serves_properties": ["C02","C03","C04","C05","C06","C07","C08","C09","C10","C11","C17"],
+             "kind_free_text": "real BaseApp+auth+pos+gov on MemDB driven through ABCI with an emulated Tendermint set; state decoded from raw stores after every op; compared with the extracted L1 model and checked by property oracles"},
             {"name": "kv", "path": "harness/cmd/kv", "serves_properties": ["C15", "C16"],
              "kind_free_text": "random programs on random stackings of cachekv/prefix/gaskv/tracekv over MemDB vs the extracted Coq store model"},
         ],
